@@ -31,29 +31,29 @@ checks = [
     chk("C06", "exploration",
         "History checking of the stateful builder API against an ordering-contract reference model, call by call (variant and payload of every result), observed together with the sink: "
         "a rejected call must cause zero writer calls and leave bytes_written unchanged; bulk calls must stop pulling at the rejected item; final bytes must equal a clean rebuild of exactly the accepted sequence. "
-        "All histories of length <= 5 (6 thorough) over a 5-key universe for 8 front-end variants are enumerated; random histories up to 200 calls with 0-60% illegal calls.",
+        "All histories of length <= 5 (6 thorough) over a 5-key universe are enumerated for 12 front-end variants (map/set/raw single calls, raw add, extend_iter, extend_stream, Set/Map::from_iter, Fst::from_iter_set/map); random histories up to 200 calls with 0-60% illegal calls, 1/16 of them with keys longer than 1 KiB.",
         TB_A, "deterministic simulation: call-history checking against a contract model with sink-event observation; exhaustive small scope + seeded random histories", "DESIGN.md §5 C06"),
     chk("C07", "fault_enumeration",
-        "Benign-fault simulation of the io::Write sink: per workload every fixed cap 1..16 and every position of a single short write (1 and len-1 bytes) and of a single Interrupted are enumerated; "
+        "Benign-fault simulation of the io::Write sink: per workload (incl. ones with a 33..256-way node and its 256-byte index) every fixed cap 1..16 and every position of a single short write (1 and len-1 bytes), of a single Interrupted and of a burst of 9/17/33 Interrupted are enumerated; "
         "random runs sample acceptance shapes, Interrupted storms, BufWriter capacities (below the 256-byte index too) and prefilled sinks. Invariant after every public call: bytes_written() == bytes the writer accepted; "
-        "after finish: durable bytes identical to a Vec<u8> build, footer == independent CRC, opens, verifies, same content.",
+        "after finish: durable bytes identical to a Vec<u8> build and all present when finish returned, footer == independent CRC, opens, verifies, same content.",
         TB_A, "deterministic simulation with fault injection: enumerated + seeded sink acceptance schedules (short writes, EINTR, buffering, prefill)", "DESIGN.md §5 C07"),
     chk("C08", "fault_enumeration",
-        "A: every artifact's footer is compared with an independent bitwise CRC-32C; arbitrary payloads (0..4096 B) are pushed through the real counting writer (hook) with the sink's acceptance schedule as the chunking. "
+        "A: every artifact's footer (clean builds, builds through short-writing sinks, one multi-MiB streamed artifact) is compared with an independent bitwise CRC-32C; arbitrary payloads (0..4096 B) are pushed through the real counting writer (hook) with the sink's acceptance schedule as the chunking. "
         "B: at-rest fault enumeration: every byte position x every other value on artifacts <= 160 B (about 8e6 corruptions quick), bursts of 2-4 bytes at every offset, sampled corruptions on larger files and flips of durable bytes while the build runs; "
         "open-then-verify must never return Ok on a corrupted artifact and nothing may panic.",
         TB_A, "deterministic simulation with fault injection: at-rest/in-flight byte corruption enumeration + sink-chunking schedules against an independent CRC-32C", "DESIGN.md §5 C08"),
     chk("C11", "fault_enumeration",
-        "Hard-fault enumeration: for each workload and layering (direct / short writes / BufWriter) a dry run measures the sink calls, then every sink call index (writes and flushes) fails with each of 7 ErrorKinds or Ok(0), transient and sticky. "
+        "Hard-fault enumeration: for each workload and layering (direct / short writes / BufWriter) a dry run measures the sink calls, then every sink call index (writes and flushes) fails with each of 8 ErrorKinds or Ok(0) (flushes also with Interrupted), transient and sticky. "
         "Oracles: no panic; the public call in progress returns Err(Io(kind)) (WriteZero for Ok(0)); earlier calls unchanged; finish returns Ok only if the sink saw a successful flush after its last write and holds exactly the reference bytes.",
         TB_A + " The simulated caller stops at the first Err(Io).", "deterministic simulation with fault injection: enumeration of the failing sink call x error kind x stickiness x layering", "DESIGN.md §5 C11"),
     chk("C13", "exploration",
-        "Streaming builds of 1e4..1e6 (thorough 1e7) keys with bounded fan-out and key length and almost no node sharing, under a counting global allocator, for sets and maps and four cache geometries; "
+        "Streaming builds of 1e4..3e6 (thorough 3e7) keys with bounded fan-out and key length and almost no node sharing (fixed-length keys, prefix pairs, leaf fans of distinct 33..64-way nodes, strictly decreasing values), under a counting global allocator, for sets and maps, several cache geometries and sink acceptance shapes; "
         "live requested heap is checked against a bound computed from (geometry, fan-out, key length) at every 1000th insert; growth over the last nine tenths is reported.",
         "Trusted: the counting allocator (requested bytes of the building thread) and the arithmetic bound derived from struct sizes on a 64-bit target. Asymptotic claim checked at finitely many scales.",
         "deterministic simulation: allocator seam (counting global allocator) with invariant checkpoints during streamed builds", "DESIGN.md §5 C13"),
     chk("C14", "exploration",
-        "For key families at two sizes (1e3 vs 1e5/1e6; thorough 5e6) the peak requested heap of stream/keys/values/range/search (4 automata)/set operations over k=2,4,8 inputs and mixed stream kinds is measured under the counting allocator; "
+        "For key families at two sizes (1e3 vs 1e5/1e6; thorough 5e6) the peak requested heap of stream/keys/values/range/search (4 automata)/set operations over k=2,4,8 inputs, mixed stream kinds and tiny/disjoint companion FSTs is measured under the counting allocator; "
         "it must stay under a bound in (k, key length) and must not grow with N beyond one doubling step; open + 5000 look-ups on borrowed bytes must allocate nothing.",
         "Trusted: the counting allocator; per-item allocate-and-free is not judged (the property is about heap held).",
         "deterministic simulation: allocator seam (counting global allocator) around traversals at two scales", "DESIGN.md §5 C14"),
@@ -63,8 +63,8 @@ checks = [
         TB_A + " Interleaving is at public-call granularity (the library has no shared mutable state).",
         "deterministic simulation: seeded call-level scheduler over multiple builder tasks + cross-process re-execution", "DESIGN.md §5 C15"),
     chk("C20", "fault_enumeration",
-        "Crash-restart simulation: a build is cut at every sink event (durable prefix, torn in-flight write of several lengths, lost BufWriter buffer); survivors, corrupted artifacts, boundary header/footer strings (root address/len/version boundary values, lengths 0..64) and random strings are reopened "
-        "through Fst/Map/Set::new over &[u8], Vec and Cow, then every metadata accessor, verify and map_data run under catch_unwind with overflow checks on. The 'no unsafe code' clause is a compile of the library with -F unsafe_code (a lint, reported as such).",
+        "Crash-restart simulation: a build is cut at every sink event (durable prefix, torn in-flight write of several lengths, lost BufWriter buffer); survivors, corrupted artifacts, boundary header/footer strings (root address/len/version boundary values, lengths 0..64), bytes whose checksum was recomputed over garbage, and random strings are reopened "
+        "through Fst/Map/Set::new over &[u8], Vec and Cow, then every metadata accessor, verify and map_data (also with a closure that returns other bytes) run under catch_unwind with overflow checks on. The 'no unsafe code' clause is a compile of the library with -F unsafe_code (a lint, reported as such).",
         TB_A + " Queries on garbage are deliberately not called (the property allows them to panic).",
         "deterministic simulation with fault injection: crash at every sink event + at-rest corruption, restart through the real open/verify path; plus a compile-time unsafe lint", "DESIGN.md §5 C20"),
     chk("C19", "exploration",
